@@ -122,6 +122,7 @@ pub fn run(ctx: &Ctx) -> Option<Report> {
             rep.merge(run_cases(ctx, 6, 8, "", |i, _seed, r| window_fill(i, r)));
         }
         "C07" => rep.merge(run_cases(ctx, 7, 2, "", |i, _seed, r| mid_size_alias_publish(i, r))),
+        "C19" => rep.merge(run_cases(ctx, 10, 8, "", |i, _seed, r| refused_disconnect_then_expiry(i, r))),
         "C13" => {
             rep.merge(run_cases(ctx, 9, 8, "", |i, _seed, r| many_aliases(i, r)));
             // the size-boundary workload also decides whether an alias the library could not put on the wire was recorded
@@ -688,6 +689,75 @@ fn many_aliases(i: u64, rep: &mut Report) {
             rep.distinct_case(format!("many aliases {:?} {} {} tam={} mode={}", role, idw, as_client, tam, mode).as_bytes());
             for f in out.found.iter().filter(|f| f.property == "C13") {
                 rep.violate(Violation { property: "C13".into(), rule: f.rule.to_string(), signature: f.signature(), what: format!("[45 topics through an alias table of {}, mode {}] {}", tam, mode, f.what), witness: json!({"history_tail": trace_json(&out.trace[out.trace.len().saturating_sub(40)..])}), case: (9, i) });
+            }
+        }
+    }
+}
+
+/// C19 (directed): a DISCONNECT of the application that is refused (too large for the peer, or carrying what the peer's
+/// limit cannot take) leaves the connection established: a keep-alive expiry afterwards still ends in a close request, and
+/// a DISCONNECT that fits is still accepted and accompanied by one
+fn refused_disconnect_then_expiry(i: u64, rep: &mut Report) {
+    use crate::apkt::*;
+    use crate::conn::*;
+    use crate::refcodec as rc;
+    let idw = if i % 2 == 0 { 2 } else { 4 };
+    let as_client = (i / 2) % 2 == 0;
+    let role = if (i / 4) % 2 == 0 { if as_client { Role::Client } else { Role::Server } } else { Role::Any };
+    let ver = Ver::V5;
+    let known = known_signatures();
+    for limit in [2u32, 3, 4, 6, 10, 20, 30] {
+        for then in 0..3u8 {
+            let sc = Scenario { role, idw, ver: LVer::V5, focus: Focus::Timers, max_ops: 0, hostile_pct: 0, as_client, speak: Ver::V5, connect_first: false };
+            let mut d = Driver::new(sc, 19);
+            d.known = known.clone();
+            if as_client {
+                d.set_pingresp_timeout(500);
+            }
+            let connect = Pkt::Connect { ver, clean: true, keep_alive: 10, client_id: b"c".to_vec(), will: None, user: None, pass: None, props: if as_client { vec![] } else { vec![p_u32(P_MPS, limit)] } };
+            let connack = Pkt::Connack { ver, sp: false, code: 0, props: if as_client { vec![p_u32(P_MPS, limit)] } else { vec![] } };
+            if as_client {
+                d.send(connect);
+                d.feed(&rc::encode(&connack, idw), &[]);
+                d.send(Pkt::Pingreq { ver });
+            } else {
+                d.feed(&rc::encode(&connect, idw), &[]);
+                d.send(connack);
+            }
+            // a DISCONNECT with a Reason String of 40 bytes never fits these limits
+            d.send(Pkt::Disconnect { ver, code: Some(0x04), props: Some(vec![p_str(31, "a reason string that is forty bytes long")]) });
+            match then {
+                0 => {
+                    let k = if as_client { Timer::PingrespRecv } else { Timer::PingreqRecv };
+                    if d.model.armed.contains(&k) {
+                        d.timer(k);
+                    }
+                }
+                1 => {
+                    d.send(Pkt::Disconnect { ver, code: None, props: None });
+                }
+                _ => {
+                    // traffic goes on
+                    d.feed(&rc::encode(&Pkt::Publish { ver, dup: false, qos: 0, retain: false, topic: b"a".to_vec(), id: None, props: vec![], payload: vec![] }, idw), &[]);
+                    let k = if as_client { Timer::PingrespRecv } else { Timer::PingreqRecv };
+                    if d.model.armed.contains(&k) {
+                        d.timer(k);
+                    }
+                }
+            }
+            d.closed();
+            let out = d.finish();
+            rep.evaluations += 1;
+            rep.api_calls += out.api_calls;
+            for (k, v) in out.hits.iter() {
+                if k.starts_with('K') {
+                    rep.hit_n(k, *v);
+                }
+            }
+            rep.hit("K4-refused-disconnect-leaves-the-connection-established");
+            rep.distinct_case(format!("refused disconnect {:?} {} {} limit={} then={}", role, idw, as_client, limit, then).as_bytes());
+            for f in out.found.iter().filter(|f| f.property == "C19") {
+                rep.violate(Violation { property: "C19".into(), rule: f.rule.to_string(), signature: f.signature(), what: format!("[after a refused oversize DISCONNECT, peer Maximum Packet Size {}] {}", limit, f.what), witness: json!({"history": trace_json(&out.trace)}), case: (10, i) });
             }
         }
     }
